@@ -20,9 +20,11 @@ import (
 	"github.com/database64128/shadowsocks-go/direct"
 	"github.com/database64128/shadowsocks-go/service"
 	"github.com/database64128/shadowsocks-go/ss2022"
+	"github.com/database64128/shadowsocks-go/stats"
 	"github.com/database64128/shadowsocks-go/zerocopy"
 	"go.uber.org/zap"
 
+	"verif/shim/vsync"
 	"verif/vnet/vudp"
 	"verif/vsched"
 )
@@ -53,6 +55,8 @@ type Env struct {
 	started  []shadowsocks.Service
 	Tunnel   netip.AddrPort
 	Upstream netip.AddrPort // address of the harness upstream proxy (outgoing clients other than direct)
+	// Collector is the real statistics collector the UDP relays record into.
+	Collector stats.Collector
 }
 
 // IP returns 127.A.B.last.
@@ -107,6 +111,19 @@ func New(sp Spec) (*Env, error) {
 		return nil, fmt.Errorf("manager: %w", err)
 	}
 	e.Services = m.VerifServices()
+	// the relays record into a real collector (the service itself only creates one when the API is enabled)
+	e.Collector = stats.NewServerCollector()
+	for _, s := range e.Services {
+		switch r := s.(type) {
+		case *service.UDPNATRelay:
+			r.VerifSetCollector(e.Collector)
+		case *service.UDPSessionRelay:
+			r.VerifSetCollector(e.Collector)
+		}
+	}
+	// a queued packet returned to its pool may be recycled at once by another goroutine: model that by
+	// scribbling over it, so that anything read from it after the Put is visible
+	vsync.PoisonOnPut = service.VerifPoisonQueuedPacket
 	return e, nil
 }
 
